@@ -43,17 +43,17 @@ type pcReq struct {
 }
 
 type pcState struct {
-	conds   map[string]bool
-	order   []string
-	ints    map[ssa.Value]int64
-	bufs    map[ssa.Value]pcBuf
-	reqs    []*pcReq
-	reqErr  map[ssa.Value]bool // err results of buffer requests (nil on the path we follow)
-	alias   map[ssa.Value]ssa.Value // phi -> the value it carries on this path
-	slen    map[ssa.Value]int64     // slices of known length that are not views of a request
-	errKnown map[ssa.Value]int      // error values known nil (+1) / non-nil (-1) from an evaluated callee
-	free    bool
-	visited map[*ssa.BasicBlock]bool
+	conds    map[string]bool
+	order    []string
+	ints     map[ssa.Value]int64
+	bufs     map[ssa.Value]pcBuf
+	reqs     []*pcReq
+	reqErr   map[ssa.Value]bool      // err results of buffer requests (nil on the path we follow)
+	alias    map[ssa.Value]ssa.Value // phi -> the value it carries on this path
+	slen     map[ssa.Value]int64     // slices of known length that are not views of a request
+	errKnown map[ssa.Value]int       // error values known nil (+1) / non-nil (-1) from an evaluated callee
+	free     bool
+	visited  map[*ssa.BasicBlock]bool
 }
 
 func (s *pcState) clone() *pcState {
@@ -108,22 +108,22 @@ type helperAlt struct {
 	val    int64
 	ok     bool
 	errNil int // +1 the error result is the nil constant, -1 it is not nil, 0 unknown / no error result
-	conds map[string]bool
-	order []string
-	free  bool
+	conds  map[string]bool
+	order  []string
+	free   bool
 }
 
 type pcover struct {
 	keyPrefix string
-	depth   int
-	rets    *[]helperAlt
-	fn      *ssa.Function
-	helper  func(*ssa.Function) (byteSet, bool)
-	holes   map[*ssa.Call]*PCHole
-	okPaths map[*ssa.Call]int // successful fully-written free paths per request
-	undec   map[*ssa.Call]string
-	nPaths  int
-	limit   int
+	depth     int
+	rets      *[]helperAlt
+	fn        *ssa.Function
+	helper    func(*ssa.Function) (byteSet, bool)
+	holes     map[*ssa.Call]*PCHole
+	okPaths   map[*ssa.Call]int // successful fully-written free paths per request
+	undec     map[*ssa.Call]string
+	nPaths    int
+	limit     int
 }
 
 // freeKey: v is a test a caller can set independently: a bool field of a
